@@ -991,6 +991,18 @@ def mon_terminal_once(tr, pid='C07', require_done=False):
 
 # ------------------------------------------------------------------------------------------------ C11
 
+def scripted_error(spec):
+    """Does the scenario itself make this interaction end with an (application) error?"""
+    if spec.get('handler_raises') or spec.get('resp', {}).get('mode') in ('fail', 'raise', 'fail_late', 'cancelled', 'cancel_late'):
+        return True
+    for key in ('src', 'rsrc'):
+        src = spec.get(key) or {}
+        if src.get('end') == 'error' or src.get('err_at') is not None or src.get('raise_in') or src.get('cancel_raises'):
+            return True
+    sub = spec.get('sub') or {}
+    return bool(sub.get('raise_at'))
+
+
 def mon_connection_loss(tr, pid='C11', affected=('c', 's'), settled_mark='settled'):
     """After the connection was lost or closed: every request pending at that moment failed with an error, responder-side
     producers cancelled, on_close exactly once per affected endpoint, nothing sent after the settle point, tasks done."""
@@ -1030,6 +1042,12 @@ def mon_connection_loss(tr, pid='C11', affected=('c', 's'), settled_mark='settle
                 elif outcome[0]['seq'] > fseq and outcome[0]['ev'] == 'rr_result':
                     # a response can still be decoded from bytes that arrived before the cut; that is fine
                     pass
+                elif outcome[0]['seq'] > fseq and outcome[0]['ev'] == 'rr_error' and not scripted_error(spec):
+                    # "failed with a connection error": the application has to be able to tell it from a cancellation
+                    # or an application error
+                    if outcome[0].get('exc_type') == 'RSocketProtocolError' and 'CONNECTION_' not in outcome[0].get('exc', ''):
+                        out.append(viol('pending_request_failed_with_wrong_error', '%s:wrong_error:rr' % pid,
+                                        exc=outcome[0].get('exc', '')[:80], **facts))
             elif k in ('st', 'ch'):
                 sub_evs = [e for e in evs if e['side'] == req_side and e.get('dir') == 'resp']
                 term_before = any((e['ev'] in ('on_complete', 'on_error') or (e['ev'] == 'on_next' and e.get('complete'))
@@ -1042,6 +1060,10 @@ def mon_connection_loss(tr, pid='C11', affected=('c', 's'), settled_mark='settle
                         out.append(viol('subscriber_left_hanging', '%s:hanging:%s' % (pid, k), **facts))
                     elif len(term_after) > 1:
                         out.append(viol('subscriber_failed_twice', '%s:failed_twice:%s' % (pid, k), **facts))
+                    elif term_after and term_after[0]['ev'] == 'on_error' and not scripted_error(spec) and \
+                            term_after[0].get('exc_type') == 'RSocketProtocolError' and 'CONNECTION_' not in term_after[0].get('exc', ''):
+                        out.append(viol('pending_request_failed_with_wrong_error', '%s:wrong_error:%s' % (pid, k),
+                                        exc=term_after[0].get('exc', '')[:80], **facts))
         if req_side in affected and k == 'ch' and spec.get('rsrc') is not None:
             # the requester of a channel produces too: its outbound publisher is cancelled like any other producer
             kind = spec['rsrc'].get('kind', 'manual')
